@@ -580,6 +580,8 @@ fn execute_write_count(db: &core::Db, cypher: &str, params: &Params) -> ApiResul
     }
     let prepared = prepare(cypher).map_err(|e| ApiError::from_query_message(&e.to_string()))?;
     let snapshot = db.snapshot();
+    #[cfg(nervusdb_verif)]
+    core::verif_sched::point("capi.autocommit.between");
     let mut txn = db.begin_write();
     let (_rows, write_count) = prepared
         .execute_mixed(&snapshot, &mut txn, params)
